@@ -10,6 +10,12 @@ extracted oracle (spec_check) is applied to what the implementation produced.  A
 table and the three comparison functions to the model on grids.  The duplicate-suite stream also runs under an
 AddressSanitizer build (the thorough tier runs every stream under it).
 
+Every case is also put to `self` (driver): the oracle applied to the MODEL's own page - the executed form of
+C14_oracle_accepts_model_partial (ok, or clause 6 alone and then only with ties/duplicates); anything else is a tie error.
+render_suite's end pointer / loop test / break test are read by the translator (walk_end_extra, walk_end_strict,
+walk_break_eq) and the model follows them (HtmlDefs.walk_ix), so an off-by-one bound shows up as a broken proof
+(HtmlProofs.walk_params_sane) AND as an out-of-bounds row of the model that the ASan lane confirms on the binary.
+
 Signatures: pass-rate-truncated (defect D8, repaired in /repo ea4de2c) and column-pointer-out-of-bounds (defect D9,
 repaired in 4acd4e2) come back with the replays of corpus/C14 when a repair is reverted;
 run-shown-under-wrong-invocation (runs matched to columns by start time only) is a known finding."""
@@ -26,7 +32,8 @@ TRUSTED = ['modelled, not verified: the file system (readdir/d_type, open O_EXCL
            'IEEE 754 binary32 arithmetic of the compiler/CPU for render_rate (modelled by exact rationals with '
            'round-to-nearest-even, tied on a grid by harness/html_leaf.c)',
            'index.html is compared as the matrix the harness parses out of it with html.parser (table/thead/tr/th, '
-           'tbody/tr/td, class, a/href, text), not as bytes; names without HTML metacharacters',
+           'tbody/tr/td, class, a/href, text), not as bytes; names without <, > and double quote (html.c does not escape; '
+           'a name containing a character reference such as &amp; is shown decoded by a browser - observed, not a claim of C14)',
            'inputs: arch names and log names without "/", output directory empty at the start, regular files readable; '
            'invocation directory names pairwise distinct per arch (readdir)']
 
@@ -39,6 +46,10 @@ ARCHES = [b'amd64', b'arm64', b'sparc64', b'i386']
 SUITES = [b'bin/ksh', b'bin/ed', b'lib/libc/malloc', b'lib/libc/sys', b'sys/kern/pipe', b'sys/net/pf', b'usr.bin/ssh',
           b'usr.bin/mandoc', b'usr.sbin/bgpd', b'sbin/pfctl', b'../gnu/perl', b'../dep/a', b'../x', b'a/b', b'a/b/c', b'./x',
           b'..//y', b'z/', b'/abs']
+# names with bytes that mean something to HTML or to a URL but not to step.csv (html.c does not escape anything;
+# '<', '>' and '"' would change the markup itself and are left out, see TRUSTED)
+SPECIAL = [b'a&b/c', b"q'x/y", b'p;q/r', b'sp ace/x', b'per%cent/x', b'utf\xc3\xa9/x', b'x/#frag', b'x/?q=1',
+           b'tab\there/x', b'x/y&']
 NONSUITE = [b'env', b'cvs', b'patch', b'obj', b'mount', b'dmesg', b'revert', b'unmount']
 KW = [b'FAILED', b'SKIPPED', b'DISABLED', b'EXPECTED_FAIL', b'UNEXPECTED_PASS', b'PASSED', b'XFAILED', b'NOT_SKIPPED']
 MARK = [b'==== t1 ====', b'==== run-a b ====', b'===> sub/dir', b'==== x ==== ', b'====x ====']
@@ -178,12 +189,18 @@ def break_invocation(rng, ent):
 
 
 def gen_case(rng, stream):
-    """stream: plain | tie | dup | error | wide"""
+    """stream: plain | tie | dup | error | wide | special | many"""
     narch = rng.choice([1, 1, 2, 2, 3])
     arches = rng.sample(ARCHES, narch)
     if rng.random() < 0.05 and narch >= 2:
         arches[1] = arches[0]                # the same arch twice: fine unless the dates collide
+    if stream == 'tie' and narch == 1 and rng.random() < 0.7:
+        narch, arches = 2, rng.sample(ARCHES, 2)     # equal start times ACROSS arches is the realistic case
     pool = rng.sample(SUITES, rng.randint(1, min(len(SUITES), rng.choice([2, 4, 6, 10]))))
+    if stream == 'special':
+        pool = rng.sample(SPECIAL, rng.randint(2, 5)) + rng.sample(SUITES, 2)
+    elif stream == 'many':
+        pool = [b'gen/%s%02d' % (rng.choice([b's', b't', b'../u']), k) for k in range(rng.choice([30, 45, 80]))]
     ninv = {'wide': rng.choice([16, 16, 17, 20, 32, 40]), 'dup': rng.choice([1, 2, 3, 16, 16])}.get(stream, rng.choice([0, 1, 2, 3, 4, 6]))
     times_used = []
     out = []
@@ -495,6 +512,7 @@ def evaluate(ctx, cases, res, impl, asan_impl=None, asan_streams=('dup',)):
         it = input_tokens(c)
         qs.append(' '.join(['run'] + it))
         qs.append(' '.join(['rates'] + it))
+        qs.append(' '.join(['self'] + it))
         try:
             qs.append(' '.join(['chk'] + it + obs_tokens(ob['rc'], ob['matrix'] if ob['rc'] == 0 else None, ob['tree'])))
         except ValueError as e:
@@ -502,9 +520,16 @@ def evaluate(ctx, cases, res, impl, asan_impl=None, asan_streams=('dup',)):
             qs.append('statuses')
     ans = common.run_driver(drv, qs)
     for i, (c, ob) in enumerate(zip(cases, obs)):
-        m, rt, chk = ans[3 * i], ans[3 * i + 1], ans[3 * i + 2]
+        m, rt, slf, chk = ans[4 * i], ans[4 * i + 1], ans[4 * i + 2], ans[4 * i + 3]
         res.evaluations += 1
         feat = features(c)
+        # C14_oracle_accepts_model_partial, executed: the oracle accepts the model's own page, clause 6 apart,
+        # and clause 6 only where some suite violates the per-row guard
+        if slf != 'ok':
+            res.count('model-page-fails-clause-6')
+            if slf != '6' or not (feat['dup_suite'] or feat['equal_times']):
+                res.tie_errors.append('oracle applied to the model\'s own page says %r (theorem: ok, or 6 under ties/duplicates only); '
+                                      'features %r' % (slf[:40], feat))
         res.count('stream=' + c.get('stream', 'corpus'))
         res.count('arches=%d' % feat['narch'])
         res.count('invocations=%s' % (feat['ninv'] if feat['ninv'] < 8 else '8+'))
@@ -634,17 +659,19 @@ def run(ctx, n=None, streams=None):
     res = common.Result()
     res.rule = ('trees generated per stream (plain: distinct start times, one run per suite and invocation; tie: equal '
                 'start times across invocations; dup: a suite recorded twice in an invocation, incl. 16 invocations so '
-                'that the vector is full; error: one invalid invocation; wide: 16-40 invocations), 1-3 arch arguments, '
+                'that the vector is full; error: one invalid invocation; wide: 16-40 invocations; special: suite and log names '
+                'with &, quote, semicolon, blank, tab, %, #, ?, UTF-8; many: 30-80 suites), 1-3 arch arguments, '
                 'suites drifting over time, several invocations per day, exit codes incl. 124, logs with every marker '
                 'kind, tags/dmesg/comment/patches present or not, attic/hidden/plain-file entries; non-trivial = exit 0 '
                 'with at least two invocations, two suites and invocations that differ in the suites they ran; distinct '
                 'by content hash')
     n = n or ctx.budget(220, 3000)
-    mix = streams or (['plain'] * 9 + ['tie'] * 3 + ['dup'] * 3 + ['error'] * 3 + ['wide'] * 1)
+    mix = streams or (['plain'] * 8 + ['tie'] * 4 + ['dup'] * 3 + ['error'] * 3 + ['wide'] * 1 + ['special'] * 2 + ['many'] * 1)
     cases = load_corpus() + [gen_case(ctx.rng, mix[i % len(mix)]) for i in range(n)]
     res.samples = [{'stream': c.get('stream'), 'features': features(c)} for c in cases[:4]]
     res.assumptions = ['up to 40 invocations and 19 suites per case in the correspondence (the theorems have no bound); '
-                       'names from [A-Za-z0-9/._-]; start times distinct unless the stream says otherwise']
+                       'names from [A-Za-z0-9/._-] except in the special stream (never <, >, double quote: html.c writes names into the markup '
+                       'unescaped); start times distinct unless the stream says otherwise']
     impl = ctx.build_impl()
     asan = ctx.build_impl('-fsanitize=address -g', cc='clang', ldflags='-fsanitize=address')
     leaf_check(ctx, res, impl)
